@@ -4,6 +4,7 @@ import PGV.Driver.C09
 import PGV.Driver.Walk
 import PGV.Driver.C15
 import PGV.Driver.C20
+import PGV.Driver.Inject
 
 open PGV PGV.Driver
 
@@ -24,6 +25,7 @@ def dispatch (line : String) : String :=
       | "lru" => C09.handle op args impl
       | "explain-c" | "explain-raw" => C15.handle op args impl
       | "dump" => C20.handle op args impl
+      | "inject" => PGV.Driver.Inject.handle op args impl
       | _ => none
     match r with
     | some r => r.render
